@@ -197,5 +197,35 @@ theorem validator_removal_strands_residual_shares :
 theorem delegator_ledger_all_histories_unscoped (w w' : World) (hs : Stores w) (hl : L0 w) (hr : ReachLS w w') : L0 w' :=
   (reach_ledger_unscoped w w' hs hl hr).1
 
+
+/-- a state in which the asset's share total (5) has fallen below the one validator's shares (10) — D13's drift, exaggerated —
+    with a single delegator holding all delegator shares of the validator; the asset's staked total is 10 tokens -/
+def wDrift : World :=
+  { (default : World) with
+    time := 100,
+    assets := [(1, { (default : Asset) with denom := 1, weight := one, wmin := 0, wmax := 2 * one, totalTokens := 10, totalValShares := 5 * one, startTime := 1000, changeRate := one, isInit := true })],
+    vals := [(0, { hist := [], totalDelShares := [(1, one)], valShares := [(1, 10 * one)] })],
+    dels := [((10, 0, 1), { del := 10, val := 0, denom := 1, shares := one, hist := [], lastClaimHeight := 0 })],
+    bank := [((accModule, 1), 10)],
+    staking := { bondDenom := 9, unbondingTime := 50, vals := [(0, { status := 3, jailed := false, tokens := 100, delShares := 100 * one, modShares := none })] },
+    params := { rewardDelay := 0, takeRateInterval := 1, lastTakeRateClaim := 0 } }
+
+/-- REFUTES "the staked total is never negative" and with it the premise `0 ≤ staked` of `custody_covers` (known finding D23
+    `negative_total_from_share_drift`): the validator's token value (20) exceeds the asset's staked total (10), the delegator's
+    reported balance is 20, `Undelegate` of it succeeds, the staked total becomes −10 and the queue owes 20 while custody holds 10 -/
+theorem last_delegator_out_takes_more_than_the_total :
+    (step (.undelegate 10 0 1 20) wDrift).1.toBool = true ∧
+    (getAsset (step (.undelegate 10 0 1 20) wDrift).2 1).map (·.totalTokens) = some (-10) ∧
+    (step (.undelegate 10 0 1 20) wDrift).2.undelQueue = [((150, 10), [{ del := 10, val := 0, denom := 1, amount := 20 }])] ∧
+    bankBalance (step (.undelegate 10 0 1 20) wDrift).2 accModule 1 = 10 := by
+  refine ⟨by decide +kernel, by decide +kernel, by decide +kernel, by decide +kernel⟩
+
+/-- … and the custody gap of that state is 0: `gap ≥ 0` alone does not mean custody covers the pending payouts once the staked
+    total is negative — which is why `custody_covers` (C01) carries the premise `0 ≤ staked` -/
+theorem zero_gap_without_cover :
+    gap (step (.undelegate 10 0 1 20) wDrift).2 1 = 0 ∧ pending (step (.undelegate 10 0 1 20) wDrift).2 1 = 20 ∧
+    custody (step (.undelegate 10 0 1 20) wDrift).2 1 = 10 := by
+  refine ⟨by decide +kernel, by decide +kernel, by decide +kernel⟩
+
 end C03
 end Alliance
